@@ -26,6 +26,7 @@ ASSUMPTIONS = [
     "reference interpreter: REJECT iff an id is defined twice anywhere (after comment removal and plate expansion) or a reference names an id not yet defined",
 ]
 BUDGET = {"quick": 60, "thorough": 500}
+ROUNDS = {"thorough": 10}
 FLOORS = {"loads": {"quick": 1500, "thorough": 15000}, "expected_reject": 400, "expected_accept": 400, "graph_walks": 300,
           "sharing_updates": 150, "factory_round_trips": 60, "faults": 9}
 
